@@ -526,6 +526,12 @@ class CallMixin:
                 r = fresh(Int if name == 'int' else Real, hint=name)
                 s2 = st.fork()
                 return [(st, r), self.exc(s2, 'ValueError', node)]
+            if isinstance(v, VReal) and name == 'int':
+                # int() of a float truncates toward zero (floats as reals; inf/nan are outside the real model)
+                r = fresh(Int, hint='int')
+                rr = z3.ToReal(r.t)
+                st.assume(z3.If(v.t >= 0, z3.And(rr <= v.t, v.t < rr + 1), z3.And(rr - 1 < v.t, v.t <= rr)))
+                return [(st, r)]
             if isinstance(v, (VOpaque, VReal)):
                 r = fresh(Int if name == 'int' else Real, hint=name)
                 return [(st, r)] + self.maybe_raise(st, name, node)
@@ -545,6 +551,14 @@ class CallMixin:
         if name in ('min', 'max') and len(a) == 2 and all(isinstance(x, (VInt, VReal)) for x in a):
             c = a[0] <= a[1]
             return [(st, If(c, a[0], a[1]) if name == 'min' else If(c, a[1], a[0]))]
+        if name == 'round' and len(a) == 1 and not kwargs and isinstance(a[0], (VInt, VReal)):
+            if isinstance(a[0], VInt):
+                return [(st, a[0])]
+            # round(x) of a float: an integer within 1/2 of x (which of the two at a tie is left open; floats as reals)
+            r = fresh(Int, hint='round')
+            rr = z3.ToReal(r.t)
+            st.assume(z3.And(rr - z3.RealVal('1/2') <= a[0].t, a[0].t <= rr + z3.RealVal('1/2')))
+            return [(st, r)]
         if name == 'abs' and isinstance(a[0], (VInt, VReal)):
             return [(st, If(a[0] >= 0, a[0], -a[0]))]
         if name in ('list', 'tuple'):
